@@ -480,7 +480,13 @@ struct Live {
     saw_poll_at: Vec<usize>,
     /// the awaiters under the boundary spawned before this spawn index have been dropped with their reader
     saw_dropped_upto: usize,
+    /// synchronous reads whose reader has been disposed: no registration for the next run is left, only the
+    /// handle for the load they were made in
+    bread_handle_only: Vec<usize>,
     no_reader: bool,
+    /// tasks spawned by synchronous reads under the boundary that have not been polled with loading off yet:
+    /// each holds a task handle of the boundary until then, whatever becomes of its reader
+    live_readers: usize,
 }
 
 fn opt(v: Option<u32>) -> String {
@@ -518,7 +524,9 @@ impl Live {
             first_poll_d: None,
             saw_poll_at: vec![],
             saw_dropped_upto: 0,
+            bread_handle_only: vec![],
             no_reader: true,
+            live_readers: 0,
         }
     }
     fn teardown(&mut self) {
@@ -633,6 +641,26 @@ impl Live {
         if id >= self.aw_base + self.saw_dropped_upto && self.spawned.get(id - self.aw_base) == Some(&'s') {
             self.saw_poll_at.push(clock);
         }
+        // the task of a synchronous read is `ready().await; drop(handle)`: it ends when polled with loading off
+        if id >= self.aw_base
+            && self.spawned.get(id - self.aw_base) == Some(&'r')
+            && !self.dv.as_ref().unwrap().loading()
+        {
+            self.live_readers = self.live_readers.saturating_sub(1);
+        }
+    }
+
+    /// the op clock values at which the loop took the registered contexts: the first poll of its task (initial
+    /// future) and whenever it called the fetcher again
+    fn takes(&self) -> Vec<usize> {
+        let g = self.sh.lock().unwrap();
+        let mut takes: Vec<usize> = self.first_poll_d.into_iter().collect();
+        for f in g.fetches.iter().skip(1) {
+            if takes.last() != Some(&f.born) {
+                takes.push(f.born);
+            }
+        }
+        takes
     }
 
     /// spawn index of the derived's own task: a local resource's first fetch spawns its tick task before it
@@ -721,6 +749,7 @@ impl Live {
         let t_cur = takes.last().copied();
         let t_prev = if takes.len() >= 2 { Some(takes[takes.len() - 2]) } else { None };
         let covered = self.bread_at.iter().any(|b| t_prev.map(|p| *b > p).unwrap_or(true))
+            || self.bread_handle_only.iter().any(|b| t_cur.map(|c| *b > c).unwrap_or(false))
             || self.saw_poll_at.iter().any(|b| t_prev.map(|p| *b > p).unwrap_or(true) && t_cur.map(|c| *b <= c).unwrap_or(false));
         let mset_during = self.mset_at.iter().any(|m| t_cur.map(|c| *m > c).unwrap_or(true));
         let expected = match g.writers.last() {
@@ -736,8 +765,8 @@ impl Live {
             "fail suspense-missed"
         } else if rl.is_empty() && !in_flight && bp != 0 {
             "fail suspense-stuck"
-        } else if self.no_reader && bp != 0 {
-            // the boundary waits although no reader under it exists any more
+        } else if self.no_reader && bp > self.live_readers {
+            // the boundary waits on behalf of a reader that does not exist any more
             "fail suspense-stale"
         } else if !settled {
             "ok"
@@ -976,6 +1005,7 @@ impl Live {
                 self.no_reader = false;
                 for _ in before..sched::task_count() {
                     self.spawned.push('r');
+                    self.live_readers += 1;
                 }
                 self.bread_at.push(clock);
             }
@@ -988,7 +1018,12 @@ impl Live {
                 for h in b.aborts.drain(..) {
                     h.abort();
                 }
-                self.bread_at.clear();
+                // registrations end with the readers; the handle of a synchronous read made during the load in
+                // flight stays until that load has finished
+                let t_cur = self.takes().last().copied();
+                let during: Vec<usize> =
+                    self.bread_at.drain(..).filter(|b| t_cur.map(|c| *b > c).unwrap_or(false)).collect();
+                self.bread_handle_only.extend(during);
                 self.saw_poll_at.clear();
                 self.saw_dropped_upto = self.spawned.len();
                 self.no_reader = true;
